@@ -44,7 +44,7 @@ theorem next_followed (env : Env) (fuel : Nat) (states : Json) (name next : Str)
     (retries : Nat) (st : St) (hE : isTrue (fld state "End") = false) (hN : fldStr state "Next" = some next)
     (hL : (render out).length ≤ env.maxData) :
     leave env (fuel + 1) states name state raw out ctx retries st =
-      runFrom env fuel states next out ctx 0 (st.exit (stateType state) name out) := by
+      runFrom env fuel states next out ctx 0 ((st.exit (stateType state) name out).handover next) := by
   have : ¬ (render out).length > env.maxData := by omega
   simp [leave, hE, hN, this]
 
@@ -112,7 +112,7 @@ theorem task_pipeline (env : Env) (fuel : Nat) (states : Json) (name fn : Str)
     (hm : mergeResult data ctx result state = .ok out) :
     runState env (fuel + 1) states name state data ctx retries st =
       leave env fuel states name state data out ctx retries
-        (st.taskCall (bump st.counts (fn, params)).2 ((fldStr state "Resource").getD []) params
+        ((st.closeKeep.request false).taskCall (bump st.counts (fn, params)).2 ((fldStr state "Resource").getD []) params
           (replyEv env.maxData (env.task fn params (bump st.counts (fn, params)).1)) tEnd) := by
   have h1 : (S "Task" = S "Pass") = False := by decide
   have h2 : (S "Task" = S "Succeed") = False := by decide
@@ -145,7 +145,7 @@ theorem task_error_goes_to_handler (env : Env) (fuel : Nat) (states : Json) (nam
     (hv : taskReply env.maxData (env.task fn params (bump st.counts (fn, params)).1) = .err e msg) :
     runState env (fuel + 1) states name state data ctx retries st =
       handleErr env fuel states name state data ctx retries e msg
-        (st.taskCall (bump st.counts (fn, params)).2 ((fldStr state "Resource").getD []) params
+        ((st.closeKeep.request false).taskCall (bump st.counts (fn, params)).2 ((fldStr state "Resource").getD []) params
           (replyEv env.maxData (env.task fn params (bump st.counts (fn, params)).1)) tEnd) := by
   have h1 : (S "Task" = S "Pass") = False := by decide
   have h2 : (S "Task" = S "Succeed") = False := by decide
@@ -201,10 +201,10 @@ theorem parallel_results_in_branch_order (env : Env) (fuel : Nat) (bs : List Jso
       simp only [runBranches] at h
       split at h
       · rename_i start states hs hst
-        generalize hr : runFrom env n states start params ctx 0 st = r at h
+        generalize hr : runFrom env n states start params ctx 0 st.startBranch = r at h
         obtain ⟨r1, s1⟩ := r
         simp only at h
-        generalize hrest : runBranches env n bs params ctx (s1.at st.clock) = rr at h
+        generalize hrest : runBranches env n bs params ctx ((s1.endBranch (isFailed r1)).at st.clock) = rr at h
         obtain ⟨rest, s2⟩ := rr
         simp only at h
         obtain ⟨v, vs', e1, e2, e3, _⟩ := fanCombine_ok h
@@ -213,7 +213,7 @@ theorem parallel_results_in_branch_order (env : Env) (fuel : Nat) (bs : List Jso
         refine ⟨by simp [this.1], ?_⟩
         intro k hk
         cases k with
-        | zero => exact ⟨v, by simp, n, st, s1, start, states, hs, hst, hr⟩
+        | zero => exact ⟨v, by simp, n, st.startBranch, s1, start, states, hs, hst, hr⟩
         | succ k =>
           obtain ⟨v', q1, q2⟩ := this.2 k (by simpa using hk)
           exact ⟨v', by simpa using q1, by simpa using q2⟩
@@ -242,17 +242,19 @@ theorem map_results_in_item_order (env : Env) (fuel : Nat) (proc : Json) (sel : 
     | zero => simp [runItems] at h
     | succ n =>
       simp only [runItems] at h
-      generalize (if mc ≠ 0 ∧ i0 ≠ 0 ∧ i0 % mc = 0 then st.waitUntil be else st) = st0 at h
+      generalize (if mc ≠ 0 ∧ i0 ≠ 0 ∧ i0 % mc = 0 then
+          (st.waitUntil be).batch (ctxStateName ctx) (List.replicate (min mc (items.length + 1)) ((fldStr proc "StartAt").getD []))
+        else st) = st0 at h
       split at h
       · simp at h
       · rename_i params hp
         split at h
         · rename_i start states hs hst
-          generalize hr : runFrom env n states start params ctx 0 (st0.push (.iterStarted (ctxStateName ctx) i0)) = r at h
+          generalize hr : runFrom env n states start params ctx 0 ((st0.push (.iterStarted (ctxStateName ctx) i0)).startBranch) = r at h
           obtain ⟨r1, s1⟩ := r
           simp only at h
           generalize hrest : runItems env n proc sel input items (i0 + 1) mc (rmax be s1.clock) ctx
-            ((s1.iterEnd (ctxStateName ctx) i0 r1).at st0.clock) = rr at h
+            (((s1.iterEnd (ctxStateName ctx) i0 r1).endBranch (isFailed r1)).at st0.clock) = rr at h
           obtain ⟨rest, s2⟩ := rr
           simp only at h
           obtain ⟨v, vs', e1, e2, e3, _⟩ := fanCombine_ok h
